@@ -7,6 +7,10 @@ import (
 	"mltwist/pkg/model"
 )
 
+// maxProgSize is maximal size of a single program section in memory which the
+// parser is willing to load.
+const maxProgSize = 1 << 28
+
 type Parser struct {
 	f *elf.File
 }
@@ -61,6 +65,14 @@ func (p *Parser) Memory() (*Memory, error) {
 			return nil, fmt.Errorf(
 				"program section in memory less then in file: %d < %d",
 				p.Memsz, p.Filesz)
+		}
+
+		// The whole section is materialized as an array of bytes, so a
+		// corrupted (or just absurdly big) size would exhaust memory.
+		if p.Memsz > maxProgSize {
+			return nil, fmt.Errorf(
+				"program section is too big to be loaded: %d > %d",
+				p.Memsz, uint64(maxProgSize))
 		}
 
 		data, err := io.ReadAll(p.Open())
